@@ -252,6 +252,107 @@ def _isolated(execute):
     return run
 
 
+# Descriptor watch. Every case is bracketed by a count of the process's open file descriptors. A case that leaves descriptors
+# open (still open after a garbage collection) is not a violation by itself - no property speaks about descriptors - but it is run
+# again, repeatedly, in a forked child that has only a few dozen free descriptors: an ordinary long-running program.  If a call
+# the oracle expects to succeed fails there, that failure is the violation (annotated with how it was reached).  On a tree that
+# leaks nothing the amplification never runs.
+FDWATCH = True
+AMPLIFY_REPS = 60
+AMPLIFY_SPARE = 32
+
+
+def _fds():
+    try:
+        return set(os.listdir('/proc/self/fd'))
+    except OSError:
+        return set()
+
+
+def _amplify(execute, spec):
+    r, w = os.pipe()
+    pid = os.fork()
+    if pid == 0:
+        msg = {}
+        try:
+            os.close(r)
+            import resource
+            soft, hard = resource.getrlimit(resource.RLIMIT_NOFILE)
+            top = max([int(x) for x in _fds() if x.isdigit()] + [0])
+            resource.setrlimit(resource.RLIMIT_NOFILE, (min(top + 1 + AMPLIFY_SPARE, soft), hard))
+            for i in range(AMPLIFY_REPS):
+                try:
+                    out = execute(spec)
+                except BaseException:
+                    tb = traceback.format_exc()
+                    if 'Too many open files' in tb or 'Errno 24' in tb:
+                        msg = {'emfile': i + 1, 'tb': tb[-1500:]}
+                    else:
+                        msg = {'harness': tb[-3000:]}
+                    break
+                if out.violations:
+                    msg = {'rep': i + 1, 'v': out.violations[0]}
+                    break
+        except BaseException:
+            msg = {'harness': traceback.format_exc()[-3000:]}
+        finally:
+            try:
+                os.write(w, json.dumps(msg, default=_default).encode()[:60000])
+            except BaseException:
+                pass
+            os._exit(0)
+    os.close(w)
+    chunks = []
+    while True:
+        b = os.read(r, 65536)
+        if not b:
+            break
+        chunks.append(b)
+    os.close(r)
+    _, status = os.waitpid(pid, 0)
+    if os.WIFSIGNALED(status):
+        return {'signal': os.WTERMSIG(status)}
+    try:
+        return json.loads(b''.join(chunks).decode() or '{}')
+    except ValueError:
+        return {}
+
+
+def _fdwatched(execute):
+    def run(spec):
+        before = _fds()
+        out = execute(spec)
+        if out.violations or spec.get('env'):
+            return out
+        left = _fds() - before
+        if left:
+            import gc
+            gc.collect()
+            left = _fds() - before
+        if not left:
+            return out
+        out.cls('descriptors-left-open')
+        res = _amplify(execute, spec)
+        for fd in left:              # keep this worker healthy: what the case left behind is garbage
+            try:
+                os.close(int(fd))
+            except (OSError, ValueError):
+                pass
+        how = (f'every run of this case leaves {len(left)} file descriptor(s) open; repeated in one process that has {AMPLIFY_SPARE} '
+               f'free descriptors, ')
+        if 'v' in res:
+            v = res['v']
+            out.viol(v['kind'], v['callsite'], how + f"run {res['rep']} fails: " + str(v.get('detail', ''))[:1500])
+        elif 'emfile' in res:
+            out.viol('descriptors-exhausted', 'repeated-case', how + f"run {res['emfile']} fails with EMFILE:\n" + res['tb'])
+        elif 'signal' in res:
+            out.viol('interpreter-crash', f"signal-{res['signal']}", how + 'the interpreter is killed')
+        elif 'harness' in res:
+            raise HarnessError('exception inside the harness/oracle while a descriptor-leaking case was repeated:\n' + res['harness'])
+        return out
+    return run
+
+
 class _StopShrink(BaseException):
     pass
 
@@ -277,6 +378,8 @@ def hyp_search(ctx, col, strategy, execute, seed, max_examples, shrink=True):
     from hypothesis import given, settings, seed as hseed, HealthCheck, Phase
     if ISOLATE:
         execute = _isolated(execute)
+    elif FDWATCH:
+        execute = _fdwatched(execute)
     last = {}
     state = {'after': 0, 'over': False, 'harness': False}
     budget = 150 if ctx.tier == 'quick' else 1000     # evaluations spent on shrinking one failure
@@ -346,6 +449,8 @@ def enum_search(ctx, col, specs, execute):
     smallest failing spec per signature is kept)."""
     if ISOLATE:
         execute = _isolated(execute)
+    elif FDWATCH:
+        execute = _fdwatched(execute)
     for spec in specs:
         out = execute(spec)
         for v in judge(ctx, col, spec, out):
